@@ -27,6 +27,9 @@ func (u *Unit) invariantsFor(fr *Frame, n int) []*Clause {
 
 func (u *Unit) invEnv(fr *Frame, head *ssa.BasicBlock, st *State, phiVals map[*ssa.Phi]Term) *SEnv {
 	env := &SEnv{u: u, cur: st, old: u.entryOf(fr), vars: map[string]*SVal{}, fr: fr, head: head, fn: fnName(fr.fn), pc: st.pc}
+	if fr.loopEntry != nil {
+		env.loopEntry = fr.loopEntry[head]
+	}
 	for i, p := range fr.fn.Params {
 		if fr.params[i].T.S != "" {
 			env.vars[p.Name()] = &SVal{T: fr.params[i].T, Go: p.Type()}
@@ -94,6 +97,10 @@ func (u *Unit) loopHead(fr *Frame, ci *cfgInfo, b *ssa.BasicBlock, phis []*ssa.P
 		entryVals[phi] = t
 	}
 	// 1. invariants hold on entry
+	if fr.loopEntry == nil {
+		fr.loopEntry = map[*ssa.BasicBlock]*State{}
+	}
+	fr.loopEntry[b] = in
 	env := u.invEnv(fr, b, in, entryVals)
 	for _, cl := range invs {
 		t, err := env.EvalBool(cl.Expr)
